@@ -2,13 +2,13 @@ SPECIFICATION Spec
 CONSTANTS
   NA = 4
   Size <- SizeU
-  ProgChoices <- ProgsCrash
+  ProgChoices <- ProgsRetry
   CountLimit = 2
   SizeLimit = 3
   NoSync = FALSE
   MaxFaults = 0
   FaultCalls = {}
-  RetryOn = FALSE
+  RetryOn = TRUE
   CrashOn = TRUE
   BugPrecedence = FALSE
   BugLockLeak = FALSE
